@@ -1,0 +1,59 @@
+//go:build verif
+
+// Contracts for package common, read by /verif/govc (comment lines starting with //@).
+// This file adds no behaviour: with the verif tag off it is not compiled; with it on
+// it only contributes the pure specification helpers below.
+
+package common
+
+import "time"
+
+// specIsDest is the "destination entry" predicate of the path-shape property.
+func specIsDest(p *ProbeResponse) bool { return p != nil && p.IsDest }
+
+// specMs is the duration-to-milliseconds conversion used for hop RTTs.
+func specMs(d time.Duration) float64 { return ConvertDurationToMs(d) }
+
+//@ func (TracerouteParams).validate
+//@ ensures[C19+C03.validate]  (ret0 == nil) == (p.MinTTL >= 1 && p.MinTTL <= p.MaxTTL)
+//@ modifies nothing
+
+//@ func (TracerouteParams).validateProbe
+//@ ensures[C03+C01.probe]     (ret0 == nil) == (probe != nil && p.MinTTL <= probe.TTL && probe.TTL <= p.MaxTTL)
+//@ modifies nothing
+
+//@ func (TracerouteParams).ProbeCount
+//@ ensures[C08.count]     ret0 == ite(p.MinTTL > p.MaxTTL, 0, int(p.MaxTTL)-int(p.MinTTL)+1)
+//@ modifies nothing
+
+//@ func clipResults
+//@ requires[pre.len]       int(minTTL) < len(results)
+//@ requires[pre.low]       forall(i, 0, int(minTTL), results[i] == nil)
+//@ ensures[C03.nonempty]   len(ret0) >= 1
+//@ ensures[C03.window]     forall(k, 0, len(ret0), ret0[k] == old(results[int(minTTL)+k]))
+//@ ensures[C03.onlylast]   forall(k, 0, len(ret0)-1, !specIsDest(ret0[k]))
+//@ ensures[C03.extent]     exists(j, 0, len(results), specIsDest(results[j])) ? specIsDest(ret0[len(ret0)-1]) : len(ret0) == len(results)-int(minTTL)
+//@ modifies nothing
+
+//@ func ToHops
+//@ requires[pre.refs]     forall(i, 0, len(probes), probes[i] == nil || allocated(probes[i]))
+//@ ensures[C03.hops.err]  ret1 != nil ==> exists(i, 0, len(probes), probes[i] != nil && int(probes[i].TTL) != int(p.MinTTL)+i)
+//@ ensures[C03.hops.ok]   ret1 == nil ==> forall(i, 0, len(probes), probes[i] == nil || int(probes[i].TTL) == int(p.MinTTL)+i)
+//@ ensures[C10.hops.atom] ret1 != nil ==> ret0 == nil
+//@ ensures[C03.hops.len]  ret1 == nil ==> len(ret0) == len(probes)
+//@ ensures[C03.hops.ttl]  ret1 == nil ==> forall(i, 0, len(ret0), ret0[i] != nil && fresh(ret0[i]) && ret0[i].TTL == int(p.MinTTL)+i)
+//@ ensures[C04.hops.dest] ret1 == nil ==> forall(i, 0, len(ret0), ret0[i].IsDest == specIsDest(probes[i]))
+//@ ensures[C05.hops.rtt]  ret1 == nil ==> forall(i, 0, len(ret0), ret0[i].RTT == ite(probes[i] != nil, specMs(probes[i].RTT), 0.0))
+//@ ensures[C16.hops.zero] ret1 == nil ==> forall(i, 0, len(ret0), !ret0[i].Reachable && ret0[i].ReverseDns == nil)
+//@ ensures[C01.hops.noaddr] ret1 == nil ==> forall(i, 0, len(ret0), probes[i] == nil ==> ret0[i].IPAddress == nil)
+//@ modifies nothing
+//@ loop 1 invariant[bounds]  0 <= i && i <= len(probes) && len(hops) == len(probes) && fresh(hops)
+//@ loop 1 invariant[noerr]   forall(j, 0, i, probes[j] == nil || int(probes[j].TTL) == int(p.MinTTL)+j)
+//@ loop 1 invariant[ttl]     forall(j, 0, i, hops[j] != nil && fresh(hops[j]) && live(hops[j]) && hops[j].TTL == int(p.MinTTL)+j)
+//@ loop 1 invariant[dest]    forall(j, 0, i, hops[j].IsDest == specIsDest(probes[j]))
+//@ loop 1 invariant[rtt]     forall(j, 0, i, hops[j].RTT == ite(probes[j] != nil, specMs(probes[j].RTT), 0.0))
+//@ loop 1 invariant[zero]    forall(j, 0, i, !hops[j].Reachable && hops[j].ReverseDns == nil)
+//@ loop 1 invariant[noaddr]  forall(j, 0, i, probes[j] == nil ==> hops[j].IPAddress == nil)
+
+//@ func CheckProbeRetryable
+//@ ensures[C09.retry]     ret0 == (chain(err, *ReceiveProbeNoPktError) || chain(err, *BadPacketError))
